@@ -186,7 +186,7 @@ def raiser(env, kind, message):
 EXC_KINDS = ["ValueError", "KeyError", "custom-0", "custom-7", "custom-999", "custom-none", "custom-x", "library", "clikit-base", "interrupt",
              "chain-from", "chain-implicit", "sourceless", "deleted-file"]
 VERBOSITY = [[], ["-v"], ["-vv"], ["-vvv"]]
-LISTENERS = ["none", "passes", "handles-0", "handles-5", "handles-300", "raises"]
+LISTENERS = ["none", "passes", "handles-0", "handles-5", "handles-300", "handles-default", "raises"]
 
 
 def run_case(sh, env, outcome, msg_class, vflags, listener, ansi, quiet=False, line=None):
@@ -212,6 +212,9 @@ def run_case(sh, env, outcome, msg_class, vflags, listener, ansi, quiet=False, l
             return
         if listener == "passes":
             cfg.add_event_listener(env.PRE_HANDLE, lambda event, name, d: None)
+        elif listener == "handles-default":
+            # marks the event handled and leaves the event's default status
+            cfg.add_event_listener(env.PRE_HANDLE, lambda event, name, d: event.handled(True))
         elif listener.startswith("handles-"):
             code = int(listener.split("-")[1])
 
@@ -250,7 +253,7 @@ def run_case(sh, env, outcome, msg_class, vflags, listener, ansi, quiet=False, l
             if status < 1 or (not quiet and normalise("listener failed") not in normalise(text)):
                 sh.violate("exception-status", case, "listener raised: status %d, report %r" % (status, normalise(text)[:120]))
         else:
-            code = int(listener.split("-")[1])
+            code = 0 if listener == "handles-default" else int(listener.split("-")[1])
             want = 0 if not code else min(max(code, 1), 255)
             if status != want:
                 sh.violate("status-value", case, "listener handled with status %d: run returned %d, expected %d" % (code, status, want))
